@@ -224,6 +224,12 @@ def classify(cfg):
     for b in R:
         if b not in loops and len([p for p in preds[b] if (p, b) not in back]) > 1 and b not in mergers:
             return "R"  # a join that is not the immediate post-dominator of any branch (e.g. after an early return)
+    for b in R:
+        if cfg[b][0] == "c":
+            m = ipdom(b)
+            if (m is not None and m not in loops and not any(b in body and m not in body for body in loops.values())
+                    and any(b not in dom[p] for p in preds[m])):
+                return "U"  # a merge point that is also entered from outside the branch it merges
     for h1, body in loops.items():
         for b in R:
             if cfg[b][0] == "c" and b not in body and h1 in dom[b]:
@@ -242,12 +248,10 @@ def classify(cfg):
 SMALL = 12
 
 
-def failure_class(cfg):
-    """signature suffix of a wrong structure: the CFG feature class; featureless ('S') CFGs are split by size"""
-    c = classify(cfg)
-    if c == "S" and len(cfg) > SMALL:
-        return "S-large"
-    return c
+def failure_class(cfg, origin=""):
+    """signature suffix of a wrong structure: the CFG feature class ('S' = none of the features: the fragment
+    the relooper handles; a wrong structure there is not a known finding)"""
+    return classify(cfg)
 
 
 def sim_cfg(cfg, xbits, maxsteps):
@@ -548,8 +552,9 @@ CORPUS = [
                    ("j", 11), ("c", 12, 6), ("j", 13), ("r",)]),
     ("finding-T", [("j", 1), ("c", 2, 3), ("j", 1), ("j", 4), ("c", 5, 6), ("j", 6), ("j", 7), ("c", 8, 9), ("j", 10), ("r",),
                    ("j", 7)]),
+    ("finding-U", [("c", 1, 2), ("c", 3, 4), ("c", 3, 5), ("r",), ("j", 3), ("j", 6), ("r",)]),
     ("finding-X", [("c", 1, 2), ("j", 1), ("c", 1, 3), ("r",)]),
-    ("finding-S-large", [("j", 1), ("c", 2, 3), ("j", 4), ("c", 5, 6), ("c", 7, 8), ("r",), ("c", 9, 10), ("j", 11), ("r",), ("j", 2),
+    ("finding-U-17", [("j", 1), ("c", 2, 3), ("j", 4), ("c", 5, 6), ("c", 7, 8), ("r",), ("c", 9, 10), ("j", 11), ("r",), ("j", 2),
                          ("j", 2), ("j", 12), ("j", 13), ("c", 14, 15), ("j", 16), ("r",), ("j", 13)]),
 ]
 
@@ -718,7 +723,7 @@ def pdriver(ctx, reqs, chunks=4):
 class Case:
     def __init__(self, origin, cfg, cap, module=None, extra=None):
         self.origin, self.cfg, self.cap, self.module, self.extra = origin, cfg, cap, module, extra or {}
-        self.cls = failure_class(cfg)
+        self.cls = failure_class(cfg, origin)
 
 
 class ExecTimeout(Exception):
